@@ -947,7 +947,7 @@ def neighbours(case, rng):
     yield from shrink(case)
 
 
-LEVEL_TEXT = ("37 Lean theorems, all by structural induction over arbitrary validator expressions (any depth, any list lengths), "
+LEVEL_TEXT = ("38 Lean theorems, all by structural induction over arbitrary validator expressions (any depth, any list lengths), "
               "arbitrary values and an arbitrary oracle for the primitive tests. C18_compositional / _built: the model of "
               "validator(inst, attr, value) -- for the expression as written and for the spliced object the constructors build -- "
               "returns iff the declarative predicate tree `sat` holds and otherwise raises exactly `excOf` (the primitive's own "
@@ -960,10 +960,11 @@ LEVEL_TEXT = ("37 Lean theorems, all by structural induction over arbitrary vali
               "C18_and_flatten / C18_or_flatten (semantic, structural, flat), C18_norm_sound, C18_sat_norm. C18_not_involution. "
               "C18_returns_none_value_unchanged (None returned; every sub-validator call receives the root value or something "
               "reached from it by iteration / value[key]). C18_equal_params_equal (pairwise == parameters => == validators, and "
-              "hashable with equal hashes when the parameters are hashable, outside K9 and K18a, under the stated coherence of the "
-              "parameter objects: hash contract, re's compile cache). C18_re_funcs_documented (valid_funcs table extracted from the "
+              "hashable with equal hashes when the parameters are hashable, outside K9, under the stated coherence of the "
+              "parameter objects: hash contract, == regexes compile to == patterns); C18_purge_irrelevant / C18_K18a_repaired (since the "
+              "K18a repair matches_re is compared by pattern and method name, so a purged re cache between two constructions no longer matters). C18_re_funcs_documented (valid_funcs table extracted from the "
               "source), C18_constructor_domain (constructor raises nothing iff arguments are in the documented domain). "
-              "C18_model_meets_spec; witnesses C18_K9_witness, C18_K18a_witness. NOT proved, only observed: the primitive tests "
+              "C18_model_meets_spec; witness C18_K9_witness. NOT proved, only observed: the primitive tests "
               "themselves (isinstance, in, operator.*, len, re.*, callable, iteration, value[key]) are oracle inputs computed with "
               "plain Python from the documented definition; 'value unchanged' is an observation (canonical description before/after). "
               "The model (src/attr/validators.py and and_/_AndValidator in _make.py, incl. constructor argument checks and the "
